@@ -95,6 +95,7 @@ def parseCfg : List String → Option Config
 abbrev Bin := List (String × String)
 
 structure DS where
+  haveEnv : Bool := false
   mode : String := "serial"
   dev : Lanes := Gen.hashInit
   cfg : Config := { props := [], src := "" }
@@ -111,9 +112,9 @@ def showBin (e : DEnv Lanes String String) (x : Bin) : String :=
 def step (s : DS) (toks : List String) : DS × String :=
   match toks with
   | "env" :: mode :: ls => match ints ls with
-      | some l => if l.length = 8 then ({ s with mode := mode, dev := l }, "ok") else (s, "bad-op")
+      | some l => if l.length = 8 then ({ s with haveEnv := true, mode := mode, dev := l }, "ok") else (s, "bad-op")
       | none => (s, "bad-op")
-  | "key" :: r => match parseCfg r with
+  | "key" :: r => if !s.haveEnv then (s, "bad-op") else match parseCfg r with
       | some c =>
         let e := s.env
         ({ s with cfg := c },
@@ -129,6 +130,7 @@ def step (s : DS) (toks : List String) : DS × String :=
       | some p => ({ s with files := s.files.filter (·.1 ≠ p) }, "ok")
       | none => (s, "bad-op")
   | ["build"] =>
+      if !s.haveEnv then (s, "bad-op") else
       let e := s.env
       let r := build e (fun _ x => x) s.fs s.cache s.cfg
       let key := match r.2.2 with | some K => fullStr K | none => "-"
